@@ -70,6 +70,9 @@ def ev1(facts, rep):
         if b is None:
             rep.missing(rule, key, 'not found')
             continue
+        from . import inline
+        from .c19 import SPARSE_KEEP
+        b = inline.inlined(facts, b, SPARSE_KEEP)
         rep.analysed_body(b)
         # pushes of 3-tuples
         pushes = []
